@@ -14,17 +14,20 @@ TRACE_CONSTS = {"FileSize": 0, "Chunk": 32768, "MaxOps": 0, "Ops": set(), "ReadS
                 "VOffs": set(), "VLens": set(), "MaxV": 0, "Limits": set(), "MaxThreads": 0, "WriteFaults": False,
                 "ShortReads": False, "PipeLimit": 100, "FixClose": False, "FixOwner": True, "FixExtent": True,
                 "FixEofSave": True, "FixEmptyStart": True, "BufSize": 0, "Whences": {0}, "SeekFromRealpos": False,
-                "ReqCap": 0, "ReqThresh": 1, "RespCap": 0, "RespThresh": 1, "SendUnderLock": False}
+                "ReqCap": 0, "ReqThresh": 1, "RespCap": 0, "RespThresh": 1, "SendUnderLock": False,
+                "IdBeforeLock": False, "StatusNoWait": False, "FinishCountsOnce": False}
 READ_MODEL = {"FileSize": 3, "Chunk": 2, "MaxOps": 2, "Ops": {"prefetch", "read", "seek", "readv"}, "ReadSizes": {2},
               "SeekPos": {1}, "VOffs": {0, 2, 3}, "VLens": {2}, "MaxV": 2, "Limits": {0, 1}, "MaxThreads": 2,
               "WriteFaults": False, "ShortReads": True, "PipeLimit": 2, "FixClose": False, "FixOwner": False,
               "FixExtent": True, "FixEofSave": True, "FixEmptyStart": True, "BufSize": 0, "Whences": {0}, "SeekFromRealpos": False,
-              "ReqCap": 0, "ReqThresh": 1, "RespCap": 0, "RespThresh": 1, "SendUnderLock": False}
+              "ReqCap": 0, "ReqThresh": 1, "RespCap": 0, "RespThresh": 1, "SendUnderLock": False,
+                "IdBeforeLock": False, "StatusNoWait": False, "FinishCountsOnce": False}
 WRITE_MODEL = {"FileSize": 3, "Chunk": 2, "MaxOps": 4, "Ops": {"write", "stat", "read", "close"}, "ReadSizes": {2},
                "SeekPos": {0}, "VOffs": {0}, "VLens": {1}, "MaxV": 1, "Limits": {0}, "MaxThreads": 1,
                "WriteFaults": True, "ShortReads": False, "PipeLimit": 2, "FixClose": False, "FixOwner": True,
                "FixExtent": True, "FixEofSave": True, "FixEmptyStart": True, "BufSize": 0, "Whences": {0}, "SeekFromRealpos": False,
-               "ReqCap": 0, "ReqThresh": 1, "RespCap": 0, "RespThresh": 1, "SendUnderLock": False}
+               "ReqCap": 0, "ReqThresh": 1, "RespCap": 0, "RespThresh": 1, "SendUnderLock": False,
+                "IdBeforeLock": False, "StatusNoWait": False, "FinishCountsOnce": False}
 # seeks of all three kinds after short reads on a file with a read buffer (read-ahead), with and without prefetch
 SEEK_MODEL = dict(READ_MODEL, FileSize=6, Chunk=3, MaxOps=4, Ops={"prefetch", "read", "seek"}, ReadSizes={1, 2},
                   SeekPos={0, 1, 2}, VOffs={0}, VLens={1}, MaxV=1, Limits={0}, MaxThreads=1, ShortReads=False,
@@ -57,14 +60,14 @@ def run_programs(c, programs, label, own):
     for i, p in enumerate(programs):
         r = drv.ProgramRunner(c.work / ("%s%d" % (label, i)), p["size"], p["seed"], short=p["short"],
                               confirm=2.0 if quick else 4.0, deadline=20.0 if quick else 45.0, faults=p.get("faults"),
-                              bufsize=p.get("bufsize", -1), caps=p.get("caps"))
+                              bufsize=p.get("bufsize", -1), caps=p.get("caps"), gate=p.get("gate"))
         try:
             recs = r.run(p["prog"])
         finally:
             r.close()
         batch.append(recs)
         meta.append(p)
-        c.case(key=repr((p["size"], p["short"], p.get("bufsize", -1), p.get("caps"), p["prog"])),
+        c.case(key=repr((p["size"], p["short"], p.get("bufsize", -1), p.get("caps"), p.get("gate"), p.get("faults"), p["prog"])),
                sample=({"size": p["size"], "short_reads": p["short"], "program": p["prog"],
                         "outcomes": [(x["op"], x.get("out")) for x in recs[1:]]} if i % 211 == 7 else None))
     res, _ = c.trace("SftpClientProto_Trace", batch,
@@ -84,10 +87,14 @@ def run_programs(c, programs, label, own):
         what = ("%s on a %d-byte file%s%s%s, call #%d %s %s -> %s: %s" %
                 (p.get("origin", label), p["size"], " (server returns short reads)" if p["short"] else "",
                  " opened with bufsize=%d" % p["bufsize"] if p.get("bufsize", -1) > 0 else "",
-                 " over pipes bounded to %d/%d bytes" % tuple(p["caps"]) if p.get("caps") else "", row[2] - 1,
+                 (" over pipes bounded to %d/%d bytes" % tuple(p["caps"]) if p.get("caps") else "")
+                 + (" with the two threads made to request at the same moment" if p.get("gate") == "ids" else "")
+                 + (" with the prefetch thread held before it records its request" if p.get("gate") == "extent" else ""),
+                 row[2] - 1,
                  rec["op"], args, rec["out"], name))
         return key, what, {"size": p["size"], "short_reads": p["short"], "seed": p["seed"], "bufsize": p.get("bufsize", -1),
-                           "caps": p.get("caps"), "program": p["prog"], "records": recs}
+                           "caps": p.get("caps"), "gate": p.get("gate"), "faults": repr(p.get("faults")),
+                           "program": p["prog"], "records": recs}
     for row in res["VERDICT"]:
         for clause in row[-1]:
             key, what, replay = describe(row[1], clause, row)
@@ -125,6 +132,13 @@ def model_c28(c):
     c.mc_holds("SftpClientProto", cfg_text(constants=consts(SEEK_MODEL), invariants=sinv), name="seeks after buffered reads")
     c.mc("SftpClientProto", cfg_text(constants=consts(dict(SEEK_MODEL, SeekFromRealpos=True)), invariants=sinv),
          expect="PosAgrees", name="mutation: SEEK_CUR counts from the end of the read-ahead")
+    # two threads inside _async_request at once: the id in the packet is the number the request is registered under
+    idm = dict(READ_MODEL, FileSize=4, Chunk=1, MaxOps=3, Ops={"prefetch", "read", "seek"}, ReadSizes={1}, SeekPos={2, 3},
+               VOffs={0}, VLens={1}, MaxV=1, Limits={1}, MaxThreads=1, ShortReads=False)
+    iinv = inv + ["RightBytes"]
+    c.mc_holds("SftpClientProto", cfg_text(constants=consts(idm), invariants=iinv), name="capped prefetch and reader requesting together")
+    c.mc("SftpClientProto", cfg_text(constants=consts(dict(idm, IdBeforeLock=True)), invariants=iinv), expect="RightBytes|NoHang",
+         name="mutation: the request id is written into the packet before the lock is taken")
     r = c.mc_holds("SftpClientProto_Gen", cfg_text(spec="GSpec", constants=consts(small), invariants=["Emit"]),
                    name="program generation", workers=1)
     progs = [x[1] for x in r.printed("CASE")]
@@ -187,6 +201,30 @@ def random_prog(rnd, size):
     return prog
 
 
+def gated_programs():
+    """schedules between the application thread and the prefetch thread that the OS produces only once in a while,
+    produced every time by two gates in the driver (RendezvousLock, delay_prefetch_registration)"""
+    out = []
+
+    def add(size, prog, gate):
+        out.append({"size": size, "short": False, "seed": 700 + len(out), "prog": prog, "gate": gate,
+                    "origin": "gated program %d" % len(out)})
+    # a capped prefetch: the reader falls back to its own READ while the prefetch thread issues the next one
+    add(200000, [{"op": "prefetch", "maxc": 1, "fsize": True}, {"op": "read", "n": 10}, {"op": "seek", "p": 100000, "whence": 0},
+                 {"op": "read", "n": 10}, {"op": "seek", "p": 150000, "whence": 0}, {"op": "read", "n": 100},
+                 {"op": "seek", "p": 70000, "whence": 0}, {"op": "read", "n": 40000}], "ids")
+    add(300000, [{"op": "prefetch", "maxc": 2, "fsize": True}, {"op": "read", "n": 40000}, {"op": "seek", "p": 250000, "whence": 0},
+                 {"op": "read", "n": 1000}, {"op": "seek", "p": 120000, "whence": 0}, {"op": "read", "n": 70000}], "ids")
+    # the response to a prefetch / readv request is handled before the prefetch thread has recorded the request
+    add(49152, [{"op": "readv", "chunks": [[49162, 100]], "maxc": 0}, {"op": "seek", "p": 0, "whence": 0}, {"op": "read", "n": 100}],
+        "extent")
+    add(49152, [{"op": "readv", "chunks": [[49152, 40000], [0, 100]], "maxc": 0}, {"op": "seek", "p": 1000, "whence": 0},
+                {"op": "read", "n": 50000}], "extent")
+    add(100000, [{"op": "prefetch", "maxc": 0, "fsize": True}, {"op": "read", "n": 100000}, {"op": "seek", "p": 5, "whence": 0},
+                 {"op": "read", "n": 10}], "extent")
+    return out
+
+
 def directed_programs():
     """fixed programs (independent of the seed) for the scenario families of the statement's quantifier, so that
     every run exercises them: chunks past EOF with a concurrency limit, a read/readv after a readv past EOF,
@@ -242,7 +280,7 @@ def run(c):
         programs.append({"size": size, "short": i % 2 == 1, "seed": c.seed * 7 + i, "prog": scale_prog(progs[i]),
                          "origin": "model program %d" % i})
     nmodel = len(programs)
-    programs += directed_programs()
+    programs += directed_programs() + gated_programs()
     for i in range(150 if c.quick else 1500):
         sz = rnd.choice([0, 1, 1000, 32768, 32769, 65536, 100000, 200000, 307200, rnd.randint(0, 307200)])
         programs.append({"size": sz, "short": rnd.random() < 0.5, "seed": c.seed * 100003 + i,
@@ -303,8 +341,14 @@ def client_half(c, pid):
                name="prefetch under back-pressure: the reader drains, the sender resumes")
     c.mc("SftpClientProto", cfg_text(constants=consts(dict(PRESSURE_MODEL, SendUnderLock=True)), invariants=pinv),
          expect="NoHang", name="mutation: the request is sent while SFTPClient._lock is held")
+    # a status for a prefetch READ that arrives before the prefetch thread has recorded the request
+    sm = dict(READ_MODEL, MaxOps=3, Ops={"readv", "read", "seek"}, SeekPos={0}, VOffs={0, 3}, MaxV=1, Limits={0}, MaxThreads=1,
+              ShortReads=False)
+    c.mc_holds("SftpClientProto", cfg_text(constants=consts(sm), invariants=pinv), name="EOF status racing with extent registration")
+    c.mc("SftpClientProto", cfg_text(constants=consts(dict(sm, StatusNoWait=True)), invariants=pinv), expect="NoHang|ReadExact",
+         name="mutation: the status does not wait for the extent to be registered")
     rnd = random.Random(c.seed + 17)
-    programs = pressure_programs()
+    programs = pressure_programs() + gated_programs()
     for i in range(60 if c.quick else 600):
         sz = rnd.choice([1000, 40000, 100000, 200000])
         prog = []
